@@ -283,7 +283,10 @@ class Interp:
             mask = d.get("mask")
             if base in ("A_INT32", "A_UINT32"):
                 if mask is not None and d.get("condensed"):
-                    raise DontCare("condensed bit mask", lossy=True)
+                    # the wire format of condensed masks is outside the envelope; values inside the mask must at least come back
+                    # unchanged
+                    small = isinstance(internal, int) and not isinstance(internal, bool) and internal >= 0 and not (internal & ~mask)
+                    raise DontCare("condensed bit mask", lossy=not small)
                 raw = int_to_raw(internal, base, enc, n)
                 if mask is not None:
                     if raw & ~mask:
@@ -302,7 +305,8 @@ class Interp:
                 raise Reject(f"value occupies {len(bs)} bytes, the type has {n} bits")
             if mask is not None:
                 if d.get("condensed"):
-                    raise DontCare("condensed bit mask", lossy=True)
+                    small = not (int.from_bytes(bs, "big") & ~mask)
+                    raise DontCare("condensed bit mask", lossy=not small)
                 mb = (mask & ((1 << n) - 1)).to_bytes(n // 8, "big")
                 if any(b & ~m & 0xFF for b, m in zip(bs, mb)):
                     raise DontCare("value outside the bit mask", lossy=True)
@@ -747,6 +751,7 @@ class Interp:
         journal: List[Tuple[Dict[str, Any], Any]] = []
         last = params[-1] if params else None
         # keys are scoped: the keys of this parameter list hide equally named keys of enclosing lists while it is encoded
+        nrc_checks: List[Tuple[Dict[str, Any], int, int]] = []
         own_keys = [(p["name"], e.length_keys if p["t"] == "LENGTH-KEY" else e.table_keys) for p in params if p["t"] in ("LENGTH-KEY", "TABLE-KEY")]
         hidden = [(d, n, d.pop(n)) for n, d in own_keys if n in d]
         for p in params:
@@ -792,6 +797,7 @@ class Interp:
                 cursor = byte + (bit + n + 7) // 8
                 e.extend_to(cursor)
                 out[name] = {"nrc": list(p["values"])}
+                nrc_checks.append((p, byte, bit))
             elif t == "LENGTH-KEY":
                 if v is not None:
                     if isinstance(v, bool) or not isinstance(v, int):
@@ -862,6 +868,15 @@ class Interp:
             d.pop(n, None)
         for d, n, val in hidden:
             d[n] = val
+        # what overlaps an NRC-CONST must be one of its coded values: a message that its own description cannot decode is
+        # not a valid encoding
+        for p, byte, bit in nrc_checks:
+            try:
+                v, _ = self.dec_dct(p["dct"], bytes(e.pdu), byte, bit, {})
+            except Short:
+                raise Reject("NRC-CONST beyond the message")
+            if v not in p["values"]:
+                raise Reject("the data overlapping the NRC-CONST is none of its coded values")
         # keep the declared order of keys in the result
         return cursor, {p["name"]: out[p["name"]] for p in params if p["name"] in out}
 
